@@ -611,6 +611,8 @@ def correspondence(ctx):
         tag = f'{spec.name}-{backend}-{"f32" if f32 else "f64"}-b{len(shp)}'
         ctx.count(tag)
         tol = TOL32 if f32 else TOL64
+        if f32_underflow(spec, f32, th):
+            ctx.count('skipped-f32-underflow'); continue     # reported by the probe under trace1psd-cholesky:float32-underflow
         if isinstance(y, str) or line == 'bad-op':
             ctx.disagree(op[:1500], line[:300], y if isinstance(y, str) else 'array')
             continue
@@ -645,6 +647,15 @@ def replay_of(spec, backend, f32, shp, th):
     d = {k: v for k, v in spec.__dict__.items()}
     return dict(map=spec.name, options=d, backend=backend, dtype='float32' if f32 else 'float64', batch_shape=list(shp),
                 theta=[float(x) for x in np.asarray(th).reshape(-1)])
+
+
+def f32_underflow(spec, f32, row):
+    """float32 only: the normaliser of to_trace1_psd_cholesky squares softplus(theta) — below 1e-19 the square leaves the float32 range"""
+    if not (f32 and isinstance(spec, PsdChol) and not isinstance(spec, PsdEns)):
+        return False
+    row = np.asarray(row, dtype=np.float64)
+    sp = np.logaddexp(0.0, row[:spec.rank])
+    return float(np.sum(sp ** 2) + np.sum(row[spec.rank:] ** 2)) < 1e-36
 
 
 def cross_backend(ctx, recs):
@@ -714,6 +725,9 @@ def probe_constraints(ctx, rng):
         for s in range(rows.shape[0]):
             ok_all = True
             yy = ys[s].astype(np.complex128 if np.iscomplexobj(ys[s]) else np.float64)
+            if not np.all(np.isfinite(yy)) and f32_underflow(spec, f32, rows[s]):
+                ctx.fail('trace1psd-cholesky:float32-underflow', f'{spec.key()} returns non-finite values in float32 when softplus(theta)^2 underflows ({backend}, batch {shp})', replay_of(spec, backend, f32, (), rows[s]))
+                continue
             if not np.all(np.isfinite(yy)):
                 ctx.fail(f'{spec.name}:finite', f'{spec.key()} returned non-finite values ({backend}, batch {shp})', replay_of(spec, backend, f32, (), rows[s]))
                 continue
